@@ -19,7 +19,13 @@ import (
 	"golang.org/x/tools/go/ssa"
 )
 
-const verifDir = "/verif"
+// verifDir is where harnesses, known findings and evidence live (GOSMT_VERIF_DIR overrides it for background runs from a snapshot).
+var verifDir = func() string {
+	if d := os.Getenv("GOSMT_VERIF_DIR"); d != "" {
+		return d
+	}
+	return "/verif"
+}()
 
 func main() {
 	if len(os.Args) < 2 {
